@@ -205,7 +205,7 @@ func buildCall(sym slip.Symbol, args slip.List, p *slip.Printer) (node Node) {
 	case "defclass", "define-condition":
 		node = defclassFromList(name, args, p)
 	default:
-		if name[0] == ':' { // some option
+		if 0 < len(name) && name[0] == ':' { // some option
 			list := &List{children: []Node{&Leaf{text: []byte(name)}}}
 			for _, a := range args {
 				list.children = append(list.children, buildNode(a, p))
